@@ -73,6 +73,14 @@ func (h *Hub) HandleShipHandshakeStateUpdate(ski string, state model.ShipState) 
 		service.SetTrusted(true)
 	}
 
+	// the pairing detail of a SKI is the one of its registered connection. With a double
+	// connection the update may come from the connection that is not kept (e.g. its end)
+	if conn := h.connectionForSKI(ski); conn != nil {
+		if shipState, shipError := conn.ShipHandshakeState(); shipState != state.State {
+			state = model.ShipState{State: shipState, Error: shipError}
+		}
+	}
+
 	pairingState := h.mapShipMessageExchangeState(state.State, ski)
 	if state.Error != nil && !errors.Is(state.Error, api.ErrConnectionNotFound) {
 		pairingState = api.ConnectionStateError
